@@ -613,3 +613,45 @@ def reassoc(n: size, x: f32[n], y: f32[n], z: f32[n]):
         y[i] = x[i] * (y[i] * 3.0)
         x[i] = (x[i] + y[i]) + (z[i] + 1.0)
 ''')
+
+add("win_win_point", '''
+@proc
+def win_win_point(x: f32[8, 8], y: f32[8]):
+    w1 = x[4:8, 0:8]
+    w2 = w1[1, 0:8]
+    w2[3] = 1.0
+    x[5, 3] = 2.0
+    y[0] = x[5, 3]
+    x[1, 3] = 3.0
+    w2[3] = 4.0
+    y[1] = w2[3] + x[1, 3]
+''')
+
+add("win_win_interval", '''
+@proc
+def win_win_interval(n: size, x: f32[n + 6, n + 6], y: f32[n]):
+    w1 = x[2:n + 5, 3:n + 6]
+    w2 = w1[1:n + 1, 2]
+    for i in seq(0, n):
+        w2[i] = 1.0
+        x[i + 3, 5] += 2.0
+        y[i] = x[i + 3, 5]
+    for i in seq(0, n):
+        x[i + 1, 2] = y[i]
+        y[i] = w2[i]
+''')
+
+add("win_arg_alias", '''
+@proc
+def bump(n: size, dst: [f32][n], src: [f32][n]):
+    for i in seq(0, n):
+        dst[i] += src[i]
+
+@proc
+def win_arg_alias(n: size, A: f32[n + 2, n + 2], b: f32[n]):
+    for i in seq(0, n):
+        bump(n, A[i + 1, 1:n + 1], b[0:n])
+        b[i] = A[i + 1, i + 1]
+    for i in seq(0, n):
+        A[0, i] = b[i]
+''')
